@@ -433,7 +433,7 @@ pub fn run(tier: Tier, seed: u64, replay: Option<Value>) -> i32 {
             }
         };
     }
-    let cfg = LoopCfg { cases: tier.pick(1000, 30000), workers: 12, max_shrink_execs: 150, max_violations: std::env::var("FVH_MAX_VIOL").ok().and_then(|s| s.parse().ok()).unwrap_or(8) };
+    let cfg = LoopCfg { cases: tier.pick(1000, 12000), workers: 12, max_shrink_execs: 150, max_violations: std::env::var("FVH_MAX_VIOL").ok().and_then(|s| s.parse().ok()).unwrap_or(8) };
     let max_len = tier.pick(30, 60);
     crate::driver::run_cases(&ev, &cfg, || proptest::collection::vec(op(), 3..=max_len), mk, |s, ops: &Vec<Op>| run_history(s, ops), |ops| json!({"ops": ops.iter().map(op2j).collect::<Vec<_>>()}));
     let e = ev.lock().unwrap();
